@@ -847,8 +847,19 @@ fn main() {
                 EXTRA.join(",")
             );
         }
+        "types" => {
+            // the catalogue types this binary can dispatch (c04_dispatch.inc is generated from gen/catalogue.txt)
+            struct Probe;
+            impl Visitor for Probe {
+                fn visit<T: for<'b, 'f> Unmarshal<'b, 'f>>(&mut self) -> String {
+                    String::new()
+                }
+            }
+            let known: Vec<&str> = rbverif::catalogue::CATALOGUE.iter().copied().filter(|t| dispatch04(t, &mut Probe).is_some()).collect();
+            println!("{}", known.join(" "));
+        }
         _ => {
-            eprintln!("usage: c04 run|worker|info");
+            eprintln!("usage: c04 run|worker|info|types");
             std::process::exit(2);
         }
     }
